@@ -339,6 +339,130 @@ def enumerated_tree_programs():
                            family='tree/%d/%d/%d' % (i, expand_all, j))
 
 
+def _depth():
+    import sys
+    f, n = sys._getframe(), 0
+    while f is not None:
+        f, n = f.f_back, n + 1
+    return n
+
+
+def _one_element_loops(x):
+    if isinstance(x, dict):
+        if x.get('r') == 'name' and x.get('n') in ('s2', 'sm'):
+            return dict(x, n=x['n'] + '1')
+        return {k: _one_element_loops(v) for k, v in x.items()}
+    if isinstance(x, list):
+        return [_one_element_loops(v) for v in x]
+    return x
+
+
+def recursive_programs():
+    """Templates that render themselves (a site map, a threaded discussion)
+    from inside every binding block, with a handler on the way: the
+    recursion ends where the interpreter's own recursion limit is reached,
+    which is before the engine's level counter says stop."""
+    from checks.c02 import BLOCKS
+
+    def v(n):
+        return dict(k='var', ref=dict(r='name', n=n), opts=[])
+
+    def t(s):
+        return dict(k='text', s=s)
+    calls = {
+        'by-name': [v('rec')],
+        'by-call': [dict(k='var', ref=dict(r='expr', e=dict(
+            e='raw', s='rec(_.None, _)')), opts=[])],
+        'in-loop': [dict(k='in', ref=dict(r='name', n='s2'), opts=[],
+                         body=[v('rec')], **{'else': None})],
+    }
+    trys = {
+        'except': lambda b: dict(k='try', body=b, handlers=[dict(
+            names=[], body=[t('c'), v('vb')])],
+            **{'else': None, 'finally': None}),
+        'except-named': lambda b: dict(k='try', body=b, handlers=[
+            dict(names=['VfA'], body=[t('a')]),
+            dict(names=['RuntimeError'], body=[t('r'), v('error_type')])],
+            **{'else': [t('e')], 'finally': None}),
+        'finally': lambda b: dict(k='try', body=b, handlers=[],
+                                  **{'else': None, 'finally': [v('vb')]}),
+        'none': lambda b: dict(k='if', conds=[dict(r='name', n='ct')],
+                               bodies=[b], **{'else': None}),
+    }
+    for outer in sorted(BLOCKS) + ['none']:
+        for tn, tr in sorted(trys.items()):
+            for cn, call in sorted(calls.items()):
+                inner = [v('va'), tr(call + [v('vb')]), v('vn')]
+                prog = inner if outer == 'none' else \
+                    [v('va'), BLOCKS[outer](inner), v('vb')]
+                # loops run over one element (the recursion stays a chain,
+                # not a tree)
+                prog = _one_element_loops(prog)
+                for delta in (300, 301, 302, 303, 304, 305, 306, 307):
+                    yield dict(recursive=True, ast=prog, outer=outer, tryk=tn,
+                               call=cn, delta=delta,
+                               syntax=('dtml', 'ssi', 'epfs')[delta % 3])
+
+
+def check_recursive(case):
+    """-> list of (bucket, case, msg)"""
+    import sys
+    from DocumentTemplate._DocumentTemplate import TemplateDict
+    from DocumentTemplate.DT_Return import DTReturn
+    from DocumentTemplate import HTML
+    world = World(return_exc=DTReturn)
+    spec = gen.base_ns(hooks=True)
+    spec['s21'] = dict(spec['s2'], items=spec['s2']['items'][:1])
+    spec['sm1'] = dict(spec['sm'], items=spec['sm']['items'][:1])
+    ns = build_ns(spec, world, 'impl')
+    src, _ = dtml.print_ast(case['ast'], case['syntax'])
+    t = harness.make_template(src, case['syntax'])
+    ns['rec'] = t
+    md = TemplateDict()
+    md._push(ns)
+    md.guarded_getattr = None
+    md.guarded_getitem = None
+    md.level = 0
+    before = (tuple(id(x) for x in md._data), md.level)
+    import gc
+    old = sys.getrecursionlimit()
+    gc_was = gc.isenabled()
+    gc.disable()      # collector callbacks of the harness need stack, too
+    sys.setrecursionlimit(_depth() + case['delta'])
+    try:
+        try:
+            out = ('text', t(None, md))
+        except DTReturn as r:
+            out = ('return', r.v)
+        except Exception as e:
+            out = ('raise', e)
+    finally:
+        sys.setrecursionlimit(old)
+        if gc_was:
+            gc.enable()
+    after = (tuple(id(x) for x in md._data), md.level)
+    okind = out[0] if out[0] != 'raise' else 'raise:' + type(out[1]).__name__
+    fails = []
+    if after != before:
+        fails.append((
+            'stack-after-call:recursive:%s:entries%+d:level%+d' % (
+                case['tryk'], len(after[0]) - len(before[0]),
+                after[1] - before[1]), case,
+            'self-rendering template %r ended (%s) at the interpreter\'s '
+            'recursion limit: the namespace holds %d entries, level %d; on '
+            'entry %d, level %d' % (src, okind, len(after[0]), after[1],
+                                    len(before[0]), before[1])))
+    else:
+        try:
+            again = HTML('<dtml-var va>|<dtml-var vn>')(None, md)
+        except Exception as e:
+            again = repr(e)
+        if again != '⟦A⟧|7':
+            fails.append(('namespace-unusable-after-catch:recursive', case,
+                          '%r then gives %r' % (src, again)))
+    return fails, okind
+
+
 def strategy():
     from hypothesis import strategies as st
     return st.fixed_dictionaries(dict(
@@ -350,11 +474,23 @@ def strategy():
 def plan(tier, seed):
     n = 40 if tier == "quick" else 800
     return [dict(seed=seed * 1000 + i, n=n) for i in range(16)] + \
-        [dict(enum=True, part=i, parts=8) for i in range(8)]
+        [dict(enum=True, part=i, parts=8) for i in range(8)] + \
+        [dict(recursive=True, part=i, parts=4) for i in range(4)]
 
 
 def run_shard(shard):
     acc = Acc(ID, sample_every=997)
+    if shard.get('recursive'):
+        for k, case in enumerate(recursive_programs()):
+            if k % shard['parts'] != shard['part']:
+                continue
+            fails, okind = check_recursive(case)
+            acc.case(case, True, klass=['recursive', 'recursive-ends:' +
+                                        okind],
+                     distinct_by_construction=True)
+            for b, c, msg in fails:
+                acc.fail(b, c, msg)
+        return acc.result()
     if shard.get('enum'):
         import itertools
         for k, case in enumerate(itertools.chain(
@@ -379,5 +515,8 @@ def run_shard(shard):
 
 
 def replay(case):
+    if case.get('recursive'):
+        f, _ = check_recursive(case)
+        return (f[0][0], f[0][2]) if f else None
     f = check_program({k: v for k, v in case.items() if k != 'fault'})
     return (f[0][0], f[0][2]) if f else None
